@@ -139,6 +139,30 @@ def run(ctx):
                             g = g or set(taken) == {"0"}
                 ctx.ob("C14.F1.location-set-only-when-missing", "%s%s" % (tag, c.name.split("::")[-1]), g,
                        "an already located error (inner template) would be overwritten", pe.where(c.bb))
+        # F1d: the same for the debug information (the source text and the variables shown with the error).  It belongs
+        # to the template the error was located in: `attach_debug_info` is reachable only where the error has none yet.
+        # A disjunction (`is_none() || kind() == SyntaxError`) replaces the source of an error located in another
+        # template by the source of the including one (seed C14-8): decided by taking the `is_none()` true side away.
+        atts = [c for c in pe.calls() if c.name.endswith("Error::attach_debug_info")]
+        if atts:
+            removed_ = set()
+            tested_ = False
+            for sb in sorted(pe.reachable):
+                if pe.term(sb)["k"] != "switch":
+                    continue
+                cd = flow.cond_of(pe, sb)
+                if cd.kind == "call" and cd.call.name in ("core::option::Option::is_none", "core::option::Option::is_some") and any(
+                        (o.kind == "call" and o.call.name.endswith("Error::debug_info")) or "debug_info" in o.proj
+                        for o in flow.origins(pe, cd.call.args[0], through_calls=lambda k: 0 if k.name.endswith(
+                            ("::as_deref", "::as_ref", "::deref", "::as_deref_mut")) else None)):
+                    tested_ = True
+                    removed_ |= cfg.bool_edges(pe, sb, cd.call.name.endswith("is_none") != cd.neg)
+            reach_ = cfg.reach_from(pe, 0, removed_edges=removed_)
+            for c in atts:
+                ctx.ob("C14.F1.debug-info-set-only-when-missing", "%s%s" % (tag, "attach_debug_info"), tested_ and c.bb not in reach_,
+                       "process_err can attach debug info (source text, variables) to an error that already carries some: an "
+                       "error located in another template then shows the source of the template it passes through, and "
+                       "its line and range no longer index the text that is shown", pe.where(c.bb))
         # ---- F1b parser entry points
         for entry in ("minijinja::compiler::parser::Parser::parse",
                       "minijinja::compiler::parser::Parser::parse_standalone_expr"):
